@@ -2,8 +2,9 @@
    also satisfies the full predicate c13_ok). *)
 From Coq Require Import ZArith List String Bool Ascii.
 From Verif Require Import Value PyEq BsonOrder Path Filter Update Project Coll HistCheck HistProps
-  HistGuards.
-From Verif.Proofs Require Import C13Proofs.
+  HistGuards HistPropCheck.
+From Verif.Proofs Require Import C13Proofs C13Id.
+From Verif.Proofs Require C02History.
 Import ListNotations.
 Open Scope Z_scope.
 Open Scope string_scope.
@@ -33,3 +34,44 @@ Example c13_ex_history :
   map (fun ob => List.length (snd (fst ob))) (model_obs false empty_coll c13_ex_ops)
   = [1; 1; 2; 3; 3; 4; 4; 4; 4]%nat.
 Proof. vm_compute. repeat split; reflexivity. Qed.
+
+(* the hypotheses of C13_history_id_partial are satisfiable on a non-trivial history (which
+   also satisfies the full predicate c13_ok) *)
+Definition c13_ex_ops2 : list op :=
+  [OInsertOne (VDoc [("_id", VInt 1); ("a", VInt 1)]);
+   OCreateIndex [("a", VInt 1)] true false None None None;
+   (* nothing matches: insert, _id from the filter *)
+   OUpdate (VDoc [("_id", VInt 2); ("a", VInt 2)]) (VDoc [("$set", VDoc [("b", VInt 1)])]) false true;
+   (* nothing matches: insert, fresh _id, dotted equality paths *)
+   OUpdate (VDoc [("a", VInt 3); ("k.x", VDoc [("$eq", VStr "s")]); ("k.y", VNull)])
+           (VDoc [("$inc", VDoc [("b", VInt 1)]); ("$push", VDoc [("k.z", VInt 1)])]) true true;
+   (* a sub-document _id without operators *)
+   OUpdate (VDoc [("_id", VDoc [("p", VInt 1); ("q", VDoc [("r", VInt 2)])]); ("a", VInt 4)])
+           (VDoc [("$setOnInsert", VDoc [("c", VInt 1)])]) false true;
+   (* something matches: modify *)
+   OUpdate (VDoc [("a", VDoc [("$gte", VInt 2)])]) (VDoc [("$inc", VDoc [("b", VInt 1)])]) true true;
+   (* replacement upserts: _id from the filter; fresh *)
+   OReplace (VDoc [("_id", VInt 9)]) (VDoc [("a", VInt 9)]) true;
+   OReplace (VDoc [("a", VInt 10)]) (VDoc [("a", VInt 10); ("z", VNull)]) true;
+   OReplace (VDoc [("a", VInt 11)]) (VDoc []) true;
+   (* an upsert rejected by the unique index *)
+   OUpdate (VDoc [("c", VInt 1)]) (VDoc [("$set", VDoc [("a", VInt 1)])]) false true;
+   OFind (VDoc []) None [] 0 0].
+
+Example c13_ex_history2 :
+  Forall C02History.op_wf c13_ex_ops2 /\
+  c13_reasons c13_ex_ops2 (model_obs false empty_coll c13_ex_ops2) = 0 /\
+  c13_undecided c13_ex_ops2 = false /\
+  modelled false empty_coll c13_ex_ops2 = true /\
+  c13i_ok c13_ex_ops2 (model_obs false empty_coll c13_ex_ops2) = true /\
+  c13_ok c13_ex_ops2 (model_obs false empty_coll c13_ex_ops2) = true /\
+  map (fun ob => List.length (snd (fst ob))) (model_obs false empty_coll c13_ex_ops2)
+  = [1; 1; 2; 3; 4; 4; 5; 6; 7; 7; 7]%nat.
+Proof.
+  split; [repeat constructor|].
+  assert (Hr : c13_reasons c13_ex_ops2 (model_obs false empty_coll c13_ex_ops2) = 0) by (vm_compute; reflexivity).
+  assert (Hu : c13_undecided c13_ex_ops2 = false) by (vm_compute; reflexivity).
+  split; [exact Hr|]. split; [exact Hu|]. split; [vm_compute; reflexivity|].
+  split; [apply c13_history_id; [repeat constructor|exact Hr|exact Hu]|].
+  split; vm_compute; reflexivity.
+Qed.
